@@ -542,7 +542,7 @@ func compareMeta(c *Ctx, md *metaData, r *rand.Rand, intOnly bool) {
 }
 
 func runMeta(c *Ctx) {
-	n := c.N(12, 120)
+	n := c.N(8, 120)
 	type job struct {
 		spec    *poolSpec
 		par     int
